@@ -41,6 +41,67 @@ def reset_facts(ctx):
     return r, cells, attrs, others
 
 
+def check_column_stores(chk, prefix, r, others, lv):
+    """whole-column stores `tensor[:, col] = v` in the reset path.  A scalar is the same value for
+    every host (judged like the per-host store).  An array is positional: row i gets v[i], and the
+    rows of the state tensor are ordered by host_num_map (the order of the scenario's host list), so
+    the array is right only if it is built by iterating the hosts in that same order."""
+    cn = r.cn
+    done = {}
+    for e in others:
+        if e.kind != "column":
+            continue
+        v = cn.norm(e.value)
+        while v[0] in ("num", "truth"):
+            v = v[1]
+        desc = f"Network.reset: {e.fam} of every row := {cn.show(v)[:100]}"
+        if e.fam in ("compromised", "access") and v[0] == "const":
+            ok = (e.fam == "compromised" and v[1] in (0, False)) or \
+                (e.fam == "access" and v[1] == lv["NONE"])
+            chk.ob(f"{prefix}.reset-store", desc, ok and not [c for c in e.ev.pc
+                                                             if c[0] not in ("inloop", "fact")],
+                   "", e.ev.loc)
+            done[e.fam] = True
+            continue
+        if v[0] == "const":
+            chk.ob(f"{prefix}.reset-store", desc, False, "the same literal for every host: "
+                   f"{e.fam} must depend on whether the host's subnet is public", e.ev.loc)
+            done[e.fam] = True
+            continue
+        # positional value: find how it was built
+        src = v
+        if src[0] == "attr":
+            ci = r.ip.types.class_by_name.get(r.ip.type_name(src[1]) or "")
+            init = ci.find_method("__init__") if ci else None
+            built = None
+            if init is not None:
+                import ast
+                for n in ast.walk(init.node):
+                    if isinstance(n, ast.Assign) and isinstance(n.targets[0], ast.Attribute) \
+                            and n.targets[0].attr == src[2]:
+                        built = n.value
+            iters = []
+            if built is not None:
+                import ast
+                for n in ast.walk(built):
+                    if isinstance(n, ast.comprehension):
+                        iters.append(ast.unparse(n.iter))
+            row_order = [i for i in iters if any(k in i for k in ("host_num_map", "address_space",
+                                                                 "hosts"))]
+            if iters and not row_order:
+                chk.ob(f"{prefix}.reset-store", desc, False,
+                       f"the array is built by iterating {iters} - an order of its own - but row i "
+                       "of the state tensor is the i-th host of the scenario's host list "
+                       "(host_num_map): for a scenario whose hosts are not listed in that order "
+                       "the flags land on the wrong hosts", e.ev.loc)
+                done[e.fam] = True
+                continue
+        chk.undecided(f"{prefix}.reset-store", desc, "positional (array) value whose row order "
+                      "is not established", e.ev.loc)
+        done[e.fam] = True
+    return done
+
+
 def check_reset(ctx, chk, prefix):
     r, cells, attrs, others = reset_facts(ctx)
     cn = r.cn
@@ -82,8 +143,11 @@ def check_reset(ctx, chk, prefix):
     want = {"compromised": lambda v: v == C(0) or v == C(False),
             "access": lambda v: v == C(lv["NONE"]),
             "reachable": None, "discovered": None}
+    col_done = check_column_stores(chk, prefix, r, others, lv)
     for fam in ("compromised", "access", "reachable", "discovered"):
         cs = by_fam.get(fam, [])
+        if fam in col_done and not cs:
+            continue
         if len(cs) != 1:
             chk.ob(f"{prefix}.reset-store", f"Network.reset stores {fam} once per host",
                    False, f"{len(cs)} store(s) to {fam}", r.fi.module.path)
